@@ -30,7 +30,7 @@ def obsB (s : List α) (r : R Bool) : Obs α :=
   | some (.error p) => .panic s p
 
 /-- one call on a Set whose collator is `rank` -/
-def step (rank : α → α → Rank) (s : List α) : Op α → Obs α
+def step2 (rank rank2 : α → α → Rank) (s : List α) : Op α → Obs α
   | .addValue v => obsR s (addValue rank s v)
   | .addValues vs => obsR s (addValues rank s vs)
   | .removeValue v => obsR s (removeValue rank s v)
@@ -48,10 +48,13 @@ def step (rank : α → α → Rank) (s : List α) : Op α → Obs α
   | .getSize => .ret s (.nat s.length)
   | .isEmpty => .ret s (.bool (s.length == 0))
   | .make vs => obsR s (makeFrom rank vs)
-  | .setAnd a b => obsR s (setAnd rank rank a b)
+  | .setAnd a b => obsR s (setAnd rank rank2 a b)
   | .setOr a b => obsR s (setOr rank a b)
   | .setSans a b => obsR s (setSans rank a b)
-  | .setXor a b => obsR s (setXor rank a b)
+  | .setXor a b => obsR s (setXor rank rank2 a b)
+
+/-- one call on a Set whose collator is `rank` (operands carry the same collator) -/
+abbrev step (rank : α → α → Rank) (s : List α) (op : Op α) : Obs α := step2 rank rank s op
 
 /-! ### abstract specification (decidable, independent of the search/rebuild loops) -/
 
@@ -71,7 +74,7 @@ def retWhere (o : Obs α) (r : Res α) (p : List α → Bool) : Bool :=
   | _ => false
 
 /-- what the abstract ordered set allows for a call on a strictly ascending state `s` -/
-def allowed (rank : α → α → Rank) (s : List α) (op : Op α) (o : Obs α) : Bool :=
+def allowed2 (rank rank2 : α → α → Rank) (s : List α) (op : Op α) (o : Obs α) : Bool :=
   match op with
   | .addValue v =>
       if member rank s v then SeqSpec.isRet o s .unit
@@ -99,8 +102,8 @@ def allowed (rank : α → α → Rank) (s : List α) (op : Op α) (o : Obs α) 
   | .make vs =>
       retWhere o .unit (fun r => strictAsc rank r && r.all (fun x => vs.contains x) && vs.all (fun x => member rank r x))
   | .setAnd a b =>
-      retWhere o .unit (fun r => strictAsc rank r && r.all (fun x => a.contains x && member rank b x)
-        && a.all (fun x => !member rank b x || member rank r x))
+      retWhere o .unit (fun r => strictAsc rank r && r.all (fun x => a.contains x && member rank2 b x)
+        && a.all (fun x => !member rank2 b x || member rank r x))
   | .setOr a b =>
       retWhere o .unit (fun r => strictAsc rank r && r.all (fun x => a.contains x || b.contains x)
         && (a ++ b).all (fun x => member rank r x))
@@ -109,9 +112,11 @@ def allowed (rank : α → α → Rank) (s : List α) (op : Op α) (o : Obs α) 
         && a.all (fun x => member rank b x || member rank r x))
   | .setXor a b =>
       retWhere o .unit (fun r => strictAsc rank r
-        && r.all (fun x => (a.contains x && !member rank b x) || (b.contains x && !member rank a x))
+        && r.all (fun x => (a.contains x && !member rank b x) || (b.contains x && !member rank2 a x))
         && a.all (fun x => member rank b x || member rank r x)
-        && b.all (fun x => member rank a x || member rank r x))
+        && b.all (fun x => member rank2 a x || member rank r x))
+
+abbrev allowed (rank : α → α → Rank) (s : List α) (op : Op α) (o : Obs α) : Bool := allowed2 rank rank s op o
 
 end SetM
 end CM
